@@ -220,7 +220,12 @@ class _MetaAbstractArray(type):
                 dtype = obj.dtype.name
         elif hasattr(obj.dtype, "as_numpy_dtype"):
             # TensorFlow
-            dtype = obj.dtype.as_numpy_dtype.__name__
+            try:
+                dtype = obj.dtype.as_numpy_dtype.__name__
+            except AttributeError:
+                # e.g. the quantised dtypes, whose `as_numpy_dtype` is a structured
+                # `np.dtype` instance rather than a scalar type
+                dtype = obj.dtype.name
         else:
             # Everyone else, including PyTorch.
             # This offers an escape hatch for anyone looking to use jaxtyping for their
